@@ -260,9 +260,12 @@ fn build(case: &Case) -> Option<(Dec, Vec<u8>, bool)> {
     }
 }
 
+/// junk value that stands for "send an empty datagram instead"
+const EMPTY_DATAGRAM: u8 = 255;
+
 /// Sends the datagrams to a `UdpNetwork<Transaction, Transaction>` and returns the markers of
 /// the transactions its `receive()` delivered (None = transport unavailable / timed out).
-fn transport_roundtrip(datagrams: &[(u8, u8)]) -> Option<Vec<u16>> {
+fn transport_roundtrip(datagrams: &[(u8, u8)]) -> Option<Vec<(u16, usize, bool)>> {
     use alpenglow::network::{Network, UdpNetwork};
     thread_local! {
         static RT: tokio::runtime::Runtime = tokio::runtime::Builder::new_current_thread().enable_all().build().expect("runtime");
@@ -277,25 +280,45 @@ fn transport_roundtrip(datagrams: &[(u8, u8)]) -> Option<Vec<u16>> {
                 payload[..2].copy_from_slice(&marker.to_le_bytes());
                 wincode::serialize(&Transaction(payload)).expect("encode")
             };
-            for (i, (len, junk)) in datagrams.iter().enumerate() {
-                let mut b = encode(i as u16, *len);
-                b.extend(std::iter::repeat_n(0u8, *junk as usize));
-                sender.send_to(&b, to).ok()?;
-            }
-            sender.send_to(&encode(u16::MAX, 0), to).ok()?;
-            let mut got = Vec::new();
-            loop {
-                let r = tokio::time::timeout(std::time::Duration::from_secs(3), net.receive()).await;
-                let Ok(Ok(tx)) = r else { return None };
-                if tx.0.len() < 2 {
-                    continue;
+            // the receiver runs while the datagrams are sent, so that they are drained in batches of
+            // varying composition; the end marker is sent three times, each in a batch of its own
+            let send = async {
+                for (i, (len, junk)) in datagrams.iter().enumerate() {
+                    let mut b = encode(i as u16, *len);
+                    if *junk == EMPTY_DATAGRAM {
+                        b.clear();
+                    } else {
+                        b.extend(std::iter::repeat_n(0u8, *junk as usize));
+                    }
+                    sender.send_to(&b, to).ok()?;
+                    if (i + *len as usize) % 4 == 3 {
+                        tokio::time::sleep(std::time::Duration::from_millis(2)).await;
+                    }
                 }
-                let m = u16::from_le_bytes([tx.0[0], tx.0[1]]);
-                if m == u16::MAX {
-                    return Some(got);
+                for _ in 0..3 {
+                    tokio::time::sleep(std::time::Duration::from_millis(25)).await;
+                    sender.send_to(&encode(u16::MAX, 0), to).ok()?;
                 }
-                got.push(m);
-            }
+                Some(())
+            };
+            let recv = async {
+                let mut got = Vec::new();
+                loop {
+                    let r = tokio::time::timeout(std::time::Duration::from_secs(3), net.receive()).await;
+                    let Ok(Ok(tx)) = r else { return None };
+                    if tx.0.len() < 2 {
+                        continue;
+                    }
+                    let m = u16::from_le_bytes([tx.0[0], tx.0[1]]);
+                    if m == u16::MAX {
+                        return Some(got);
+                    }
+                    got.push((m, tx.0.len(), tx.0[2..].iter().all(|b| *b == 0xA5)));
+                }
+            };
+            let (sent, got) = tokio::join!(send, recv);
+            sent?;
+            got
         })
     })
 }
@@ -368,10 +391,12 @@ impl Property for C19 {
          shreds of all four shredders for payload sizes over the whole range with header fields pushed out of range; \
          repair requests and all four response variants (proofs up to 10 hashes, maximum-size shred); transactions \
          0..1400 bytes; arbitrary byte strings and byte-level edits / truncations / appended bytes of valid encodings \
-         offered to all five decoders. Oracle: decode(encode) re-encodes to the same bytes; accessors agree with the \
+         offered to all five decoders; bursts of up to 24 datagrams (valid transactions, valid ones followed by \
+         junk bytes, empty datagrams) sent over a real loopback UDP socket to the crate's UdpNetwork while it is \
+         receiving. Oracle: decode(encode) re-encodes to the same bytes; accessors agree with the \
          generated fields; one appended byte is rejected; indices >= 1024 / >= 64 and masks > 2048 bits are rejected; \
          anything that decodes re-encodes to a stable encoding; messages a correct node emits are <= 1500 bytes; never a \
-         panic. Non-trivial: the offered bytes decode (canonical, mutated or arbitrary)."
+         panic; the UDP transport delivers exactly the valid datagrams, each once, in order and unaltered. Non-trivial: the offered bytes decode (canonical, mutated or arbitrary)."
             .into()
     }
     fn assumptions(&self) -> Vec<String> {
@@ -382,7 +407,7 @@ impl Property for C19 {
         prop_oneof![
             200 => structured(),
             20 => (dec, any::<u64>(), 0u16..1600).prop_map(|(dec, seed, len)| Case::Bytes { dec, seed, len }),
-            1 => prop::collection::vec((0u8..200, prop_oneof![2 => Just(0u8), 1 => 1u8..4]), 1..8).prop_map(|datagrams| Case::Transport { datagrams }),
+            1 => prop::collection::vec((0u8..200, prop_oneof![4 => Just(0u8), 2 => 1u8..4, 1 => Just(EMPTY_DATAGRAM)]), 1..24).prop_map(|datagrams| Case::Transport { datagrams }),
             100 => (structured(), prop::collection::vec((any::<u16>(), any::<u8>()), 0..4), prop::option::weighted(0.2, any::<u16>()), prop::collection::vec(any::<u8>(), 0..3))
                 .prop_map(|(base, edits, truncate, append)| Case::Mutated { base: Box::new(base), edits, truncate, append }),
         ]
@@ -402,16 +427,32 @@ impl Property for C19 {
                     Ok(None) => out.label("transport:unavailable-or-timeout"),
                     Ok(Some(got)) => {
                         out.nontrivial = datagrams.iter().any(|d| d.1 > 0);
-                        for m in &got {
+                        for (m, len, intact) in &got {
                             out.checks += 1;
-                            let junk = datagrams.get(*m as usize).map(|d| d.1).unwrap_or(0);
+                            let Some((sent_len, junk)) = datagrams.get(*m as usize).copied() else {
+                                out.violate("C19/transport/invented-message", format!("marker {m} was never sent ({} datagrams)", datagrams.len()));
+                                continue;
+                            };
                             if junk > 0 {
-                                out.violate("C19/transport/trailing-bytes-accepted", format!("datagram #{m} carried {junk} bytes after a valid transaction and was delivered by UdpNetwork::receive"));
+                                out.violate("C19/transport/trailing-bytes-accepted", format!("datagram #{m} carried {junk} bytes after a valid transaction (or was empty) and was delivered by UdpNetwork::receive"));
+                            } else if *len != sent_len as usize + 2 || !*intact {
+                                out.violate("C19/transport/message-altered", format!("datagram #{m}: sent a {}-byte transaction, received {len} bytes (payload intact: {intact})", sent_len as usize + 2));
                             }
                         }
-                        let clean = datagrams.iter().filter(|d| d.1 == 0).count();
-                        if got.len() < clean {
-                            out.label("transport:loss");
+                        // loopback UDP keeps order and does not duplicate: what is delivered is a
+                        // subsequence of the clean datagrams, each exactly as it was sent
+                        out.checks += 1;
+                        let markers: Vec<u16> = got.iter().map(|g| g.0).collect();
+                        if markers.windows(2).any(|w| w[0] >= w[1]) {
+                            out.violate("C19/transport/replayed-or-reordered", format!("sent {datagrams:?}; delivered markers {markers:?}"));
+                        }
+                        // the end marker arrived, so did everything queued before it: a loopback
+                        // socket drops only when its receive buffer (>= 200 KB) overflows, and a
+                        // case sends at most 24 datagrams of at most 210 bytes
+                        let clean: Vec<u16> = datagrams.iter().enumerate().filter(|(_, d)| d.1 == 0).map(|(i, _)| i as u16).collect();
+                        out.checks += 1;
+                        if let Some(missing) = clean.iter().find(|m| !markers.contains(m)) {
+                            out.violate("C19/transport/message-lost", format!("sent {datagrams:?}; datagram #{missing} is a valid transaction and was not delivered although the end marker was; delivered {markers:?}"));
                         }
                     }
                 }
